@@ -1130,7 +1130,10 @@ def scheduled_quiescence(ctx):
     from harness.props import sysrun, c18
     specs = c18.specs(ctx)
     step = 2 if ctx.thorough() else 5
-    sysrun.sub_runs(ctx, specs[::step], quiescence_mons())
+    # ... and transfers that fail because a stage's pool refuses a task (no new worker thread can be
+    # started): the permit taken for the refused task has to come back as well
+    faults = sysrun.specs_submit_fault(ctx, sysrun.KINDS[:: (1 if ctx.thorough() else 2)], seeds=1)
+    sysrun.sub_runs(ctx, specs[::step] + faults, quiescence_mons())
 
 
 def replay(ctx, data):
